@@ -57,6 +57,7 @@ type Obl struct {
 	Lean bool
 	// Lambda renders total array definitions as lambda terms (z3 only).
 	Lambda bool
+	lockSnap    *State // state at the latest Lock() on the obligation's path (replay inputs may use atlock)
 	provedQuery string // the rendering that was discharged (thorough tier: handed to a second solver)
 	// FrameDetail: verdict text of a package-wide frame obligation
 	FrameDetail string
